@@ -180,6 +180,48 @@ def check_single_pass_expansion(ctx, mods) -> None:
     ctx.floor(rule, n, 2, "single-pass substitution calls")
 
 
+def list_order_effect(e: ast.AST) -> Optional[str]:
+    """What an expression does to the order / multiplicity of the list it is built from, as far as 'the last one wins' is
+    concerned.  None = harmless (copies, 'x or []', an even number of reversals, de-duplication that keeps the LAST occurrence);
+    otherwise the reason.  Orientation is tracked through reversed()/[::-1]; dict.fromkeys / OrderedDict.fromkeys keep the first
+    occurrence in the orientation they see."""
+    def walk(x: ast.AST, flipped: bool):
+        """returns (flipped, reason) for the value of x relative to its innermost list source"""
+        if isinstance(x, ast.Call):
+            cn = call_name(x) or ""
+            base = cn.split(".")[-1]
+            if base in ("list", "tuple") and x.args:
+                return walk(x.args[0], flipped)
+            if base == "reversed" and x.args:
+                f, r = walk(x.args[0], flipped)
+                return (not f, r)
+            if base == "fromkeys" and x.args:
+                f, r = walk(x.args[0], flipped)
+                if r:
+                    return (f, r)
+                if not f:
+                    return (f, "a de-duplication that keeps the FIRST occurrence: for [a, b, a] the files are layered as [a, b], so b "
+                               "wins although a was given last")
+                return (f, None)
+            if base in ("sorted", "set", "frozenset"):
+                return (flipped, "a set or a sort")
+            return (flipped, None)
+        if isinstance(x, ast.Subscript) and isinstance(x.slice, ast.Slice) and x.slice.lower is None and x.slice.upper is None \
+                and isinstance(x.slice.step, ast.UnaryOp) and isinstance(x.slice.step.op, ast.USub) \
+                and isinstance(x.slice.step.operand, ast.Constant) and x.slice.step.operand.value == 1:
+            f, r = walk(x.value, flipped)
+            return (not f, r)
+        if isinstance(x, ast.BoolOp):
+            return walk(x.values[0], flipped)
+        return (flipped, None)
+    f, r = walk(e, False)
+    if r:
+        return r
+    if f:
+        return "an odd number of reversals: the files are layered in the opposite order"
+    return None
+
+
 def run(ctx) -> None:
     ctx.explanation = (
         "Order-taint (ORD) over every function of conf.py, flowir.py, dsl.py and graph.py: sets, set operations, functions "
@@ -193,6 +235,9 @@ def run(ctx) -> None:
     ctx.rule("C15.R2-variable-files-order", "variable files are layered in the order given, last one wins")
     ctx.rule("C15.R3-hash-sorted", "_memoization_info_to_hash iterates dictionaries and lists only through sorted()")
     ctx.rule("C15.R4-naming-over-ordered", "generated names (duplicate suffixes, envN) are numbered while iterating ordered containers")
+    ctx.rule("C15.R6-no-process-wide-memo", "the modules on the load path keep no process-wide mutable state: a function stores into "
+             "class-level attributes (cls.X, <Class>.X, their items, or through their mutators) only immutable scalars - a class-level "
+             "cache of parsed or resolved objects makes the second load in a process differ from the first load of a fresh process")
     ctx.rule("C15.R5-single-pass-expansion-not-loop-carried", "a single-pass substitution (Template.safe_substitute wrappers such as "
              "expand_vars) applied while iterating a mapping never uses as its context a mapping that is stored into in the same "
              "loop: otherwise values seen by later keys depend on the key order of the (equal) input document")
@@ -247,6 +292,7 @@ def run(ctx) -> None:
         for st in stores:
             names = set(flow_names(st.value))
             bad = None
+            bad_why = ""
             # follow local definitions of the stored name(s)
             seen: Set[str] = set()
             todo = list(names)
@@ -257,16 +303,21 @@ def run(ctx) -> None:
                 seen.add(nm)
                 for v in match.assigned_value(fn, nm):
                     direct = [v] + ([g.iter for g in v.generators] if isinstance(v, (ast.ListComp, ast.GeneratorExp)) else [])
-                    if fo.is_unordered(v) or any(isinstance(x, ast.Call) and call_name(x) in ("set", "frozenset", "sorted", "reversed")
-                                                 for dv in direct for x in ([dv] + ([a for a in dv.args] if isinstance(dv, ast.Call) else []))):
+                    why = list_order_effect(v)
+                    if why is None and (fo.is_unordered(v) or any(
+                            isinstance(x, ast.Call) and call_name(x) in ("set", "frozenset", "sorted")
+                            for dv in direct for x in ([dv] + ([a for a in dv.args] if isinstance(dv, ast.Call) else [])))):
+                        why = "a set or a sort"
+                    if why:
                         bad = v
+                        bad_why = why
                     todo.extend(flow_names(v))
             ok = bad is None and "variable_files" in seen
             ctx.ob("C15.R2-variable-files-order", st, ok,
                    "the stored list of variable files derives from the caller's list without passing through a set or a sort" if ok else
-                   "the list of user variable files passes through %s before it is stored: the layering order of several files "
-                   "no longer is the order given (depends on hashing / is re-sorted), contradicting 'the last one wins'"
-                   % (short(bad, 60) if bad is not None else "an unknown source"),
+                   "the list of user variable files passes through %s before it is stored (%s): the layering order of several files "
+                   "no longer is the order given, contradicting 'the last one wins'"
+                   % ((short(bad, 60), bad_why) if bad is not None else ("an unknown source", "not derived from the caller's list")),
                    construct="%s in %s" % (short(st, 80), q))
     lm = conf.func("FlowIRExperimentConfiguration.layer_many_variable_files")
     ctx.analysed(lm)
@@ -328,3 +379,35 @@ def run(ctx) -> None:
                "names are numbered while iterating the insertion-ordered %s" % short(base, 40) if ok else
                "names are numbered while iterating an unordered collection: the same package gets different names per process",
                construct="for ... in %s (naming)" % short(it, 60))
+
+
+    # ---------------- R6 -------------------------------------------------------------------------------
+    from vlib import state
+    n_fn = 0
+    hits = []
+    scalar_memos = []
+    for rel in ("python/experiment/model/conf.py", "python/experiment/model/frontends/flowir.py", "python/experiment/model/frontends/dosini.py",
+                "python/experiment/model/frontends/dsl.py", "python/experiment/model/graph.py", "python/experiment/model/storage.py",
+                "python/experiment/model/data.py"):
+        mm = ctx.repo.module(rel)
+        classes = {c.name for c in ast.walk(mm.tree) if isinstance(c, ast.ClassDef)}
+        for q, f in mm.functions.items():
+            if q.count(".") > 1:
+                continue    # nested functions are walked as part of their parents
+            n_fn += 1
+            for (node, attr, value, kind) in state.class_level_effects(f, classes):
+                if kind in ("store",) and state.is_immutable_scalar(value):
+                    scalar_memos.append((rel, q, attr))
+                    continue
+                hits.append((mm, q, node, attr, kind))
+    for (mm, q, node, attr, kind) in hits:
+        ctx.ob("C15.R6-no-process-wide-memo", node, False,
+               "%s keeps process-wide state in the class attribute %s (%s of a mutable object): whatever is remembered there is shared by "
+               "every later load in the process - and handed out by reference, so layering/patching the result of one load changes what "
+               "the next load starts from; the same package and options then resolve differently than in a fresh process"
+               % (q, attr, kind), construct="%s: %s %s" % (q, kind, attr))
+    if not hits:
+        ctx.ob("C15.R6-no-process-wide-memo", ctx.repo.module("python/experiment/model/conf.py").tree, True,
+               "no function of the load path stores a mutable object into class-level state (%d functions; scalar memos: %s)"
+               % (n_fn, sorted({a for _, _, a in scalar_memos}) or "none"), construct="class-level state of the load path is immutable")
+    ctx.floor("C15.R6-no-process-wide-memo", n_fn, 500, "functions of the load-path modules inspected")
